@@ -135,8 +135,8 @@ theorem cnt_insertByPrime (a : Assign) (x : Elem) (l : List Elem) :
   | cons y ys ih =>
     simp only [insertByPrime]
     split
-    · rfl
     · rw [cnt_cons, ih, cnt_cons, cnt_cons, cnt_cons]; omega
+    · rfl
 
 theorem evalElems_insertByPrime (a : Assign) (x : Elem) (l : List Elem) :
     evalElems a (insertByPrime x l) = evalElems a (x :: l) := by
@@ -145,9 +145,9 @@ theorem evalElems_insertByPrime (a : Assign) (x : Elem) (l : List Elem) :
   | cons y ys ih =>
     simp only [insertByPrime]
     split
-    · rfl
     · rw [evalElems_cons, ih, evalElems_cons, evalElems_cons, evalElems_cons]
       cases (x.1.eval a && x.2.eval a) <;> cases (y.1.eval a && y.2.eval a) <;> simp
+    · rfl
 
 theorem mem_insertByPrime {x e : Elem} {l : List Elem} :
     e ∈ insertByPrime x l ↔ e = x ∨ e ∈ l := by
@@ -156,7 +156,6 @@ theorem mem_insertByPrime {x e : Elem} {l : List Elem} :
   | cons y ys ih =>
     simp only [insertByPrime]
     split
-    · simp
     · simp only [List.mem_cons, ih]
       constructor
       · rintro (h | h | h)
@@ -167,6 +166,7 @@ theorem mem_insertByPrime {x e : Elem} {l : List Elem} :
         · exact Or.inr (Or.inl h)
         · exact Or.inl h
         · exact Or.inr (Or.inr h)
+    · simp
 
 theorem cnt_sortByPrime (a : Assign) (l : List Elem) : cnt a (sortByPrime l) = cnt a l := by
   induction l with
